@@ -104,43 +104,46 @@ def isWaitingName (m : Mem) (n : Name) : Bool := m.wait.any (fun w => w.2.1 == n
 
 inductive Ready | yes | park (timer : Bool) (e : Entry)
 
+def Ready.isYes : Ready → Bool | .yes => true | .park .. => false
+
+/-- the log search of isFileReady for an unknown predecessor: (found, new prevScanBeg).
+    `end` of the searched window is file.prevScanBeg, or the cache start time when that is
+    zero or before 2010; a zero time makes log.each search from year 1 up to now. The
+    window grows with the age of the file (whole minutes of age, in days). -/
+def prevSearch (s : State) (e : Entry) (now : Int) : Bool × Int :=
+  let age := now - e.time
+  let len0 := (age / 60) * 86400
+  let len := if len0 = 0 then 86400 else len0
+  let fin : Option Int := match e.prevScanBeg with
+    | some b => if b < 1262304000 then s.mem.cacheTime else some b
+    | none => s.mem.cacheTime
+  match fin with
+  | some f => (wasReceived s.disk.log e.prev "" (f - len) f, f - len)
+  | none => (s.disk.log.any (fun r => r.name == e.prev && dayOf r.time ≤ dayOf now + 1),
+             -62135596800 - len)
+
 /-- isFileReady -/
 def isFileReady (s : State) (n : Name) (e : Entry) (now : Int) : Ready :=
   if e.prev = "" ∨ e.prev = n then .yes
   else match stateOf s.mem e.prev with
     | none =>
       if s.mem.locks e.prev then .park false e
-      else
-        let age := now - e.time
-        let len0 := (age / 60) * 86400
-        let len := if len0 = 0 then 86400 else len0
-        -- `end` of the search: file.prevScanBeg, or the cache start time when that is zero
-        -- or before 2010; a zero time makes log.each search from year 1 up to now
-        let fin : Option Int := match e.prevScanBeg with
-          | some b => if b < 1262304000 then s.mem.cacheTime else some b
-          | none => s.mem.cacheTime
-        match fin with
-        | some f =>
-          let beg := f - len
-          if wasReceived s.disk.log e.prev "" beg f then .yes
-          else .park true { e with prevScanBeg := some beg }
-        | none =>
-          if s.disk.log.any (fun r => r.name == e.prev && dayOf r.time ≤ dayOf now + 1) then .yes
-          else .park true { e with prevScanBeg := some (-62135596800 - len) }
+      else if (prevSearch s e now).1 then .yes
+      else .park true { e with prevScanBeg := some (prevSearch s e now).2 }
     | some .received | some .failed | some .validated => .park false e
     | some .finalized | some .logged => .yes
 
 /-- finalize(file): putFileAway + release of the files parked on it -/
 def finalizeEffects (s : State) (n : Name) (e : Entry) (now : Int) : List Prim :=
   [Prim.lockAdd n] ++
-  (if stateOf s.mem n ≠ some .validated then []
+  (if stateOf s.mem n ≠ some .validated ∨ (s.mem.cache n).map (·.hash) ≠ some e.hash then []
    else
-     [Prim.timerDel n, Prim.logAppend ⟨n, e.renamed, e.hash, e.size, now⟩] ++
+     [Prim.timerDel n, Prim.logAppend ⟨n, e.renamed, e.hash, e.size, now, e.prev⟩] ++
      (match s.disk.wait n with
       | none => []        -- Move fails (source missing): error logged, nothing else happens
       | some _ =>
         let t := targetOf n e.renamed
-        [Prim.renWaitLck n t, Prim.renLckFinal t] ++
+        [Prim.renWaitFinal n t] ++
         toCache s.mem n { e with logged := some now } .finalized now ++
         [Prim.rmCmp n, Prim.waitTake n] ++
         (s.mem.wait.filter (fun w => w.1 == n)).map (fun w => Prim.fqPush w.2.1 w.2.2))) ++
@@ -222,11 +225,12 @@ def statusAnswer (s : State) (n : Name) : Nat :=
 /-- Recover(): the walk's classification of one name -/
 inductive RecClass | finalize (c : Cmp) | validate (c : Cmp) | nothing
 
-def recoverWalk (d : Disk) (n : Name) : List Prim × RecClass :=
+def recoverWalk (H : Body → String) (d : Disk) (n : Name) : List Prim × RecClass :=
   match d.cmp n with
   | none => ([], .nothing)
   | some c =>
-    if d.wait n ≠ none then ([], .finalize c)
+    -- a `.wait` file is finalized only if its hash is the companion's (else it is ignored)
+    if (match d.wait n with | some i => H (d.body i) == c.hash | none => false) then ([], .finalize c)
     else if d.full n ≠ none then ([], .validate c)
     else if d.part n ≠ none then
       (if isComplete c.parts c.size then ([Prim.renPartFull n], .validate c) else ([], .nothing))
@@ -243,7 +247,7 @@ def minMtime (d : Disk) (now : Int) : List Name → Int
     primitives of the later phases are computed on the state produced by the earlier ones,
     so the whole is a fold. -/
 def recoverEffects (H : Body → String) (s : State) (now : Int) (names : List Name) : List Prim :=
-  let walk := names.map (fun n => (n, recoverWalk s.disk n))
+  let walk := names.map (fun n => (n, recoverWalk H s.disk n))
   let p1 := [Prim.setReady false] ++ walk.flatMap (fun x => x.2.1)
   let s1 := run s p1
   let oldest := minMtime s.disk now names
@@ -265,27 +269,29 @@ def recoverEffects (H : Body → String) (s : State) (now : Int) (names : List N
   let r4 := vals.foldl stepV r3
   p1 ++ p2 ++ r4.2 ++ [Prim.setReady true]
 
-/-- cleanStrays(24h) after `fix:` (the companion is read through its own path) -/
-def cleanStrayOne (s : State) (now : Int) (n : Name) : List Prim :=
+/-- cleanStrays(24h) after `fix:` (the companion is read through its own path): the decision
+    for one `<n>.part`: (remove the partial, remove the companion). -/
+def cleanDecision (s : State) (now : Int) (n : Name) : Bool × Bool :=
   match s.disk.part n with
-  | none => []
+  | none => (false, false)
   | some i =>
     let age := now - s.disk.mtime i
-    if age < 86400 then []
+    if age < 86400 then (false, false)
     else
       let comp := s.disk.cmp n
       let st := stateNum s.mem n
       let fileHash := match s.mem.cache n with | some e => e.hash | none => ""
       if st > 0 then
-        let del := match comp with | none => true | some c => decide (c.hash = fileHash)
-        (if del then [Prim.rmPart n] else []) ++
-        (if comp.isSome ∧ st = 4 then [Prim.rmCmp n] else [])
+        ((match comp with | none => true | some c => decide (c.hash = fileHash)),
+         comp.isSome && decide (st = 4))
       else
         let beg := s.disk.mtime i - (age / 60) * 3600
         let hash := match comp with | some c => c.hash | none => ""
-        if wasReceived s.disk.log n hash beg now then
-          [Prim.rmPart n] ++ (if comp.isSome then [Prim.rmCmp n] else [])
-        else []
+        if wasReceived s.disk.log n hash beg now then (true, comp.isSome) else (false, false)
+
+def cleanStrayOne (s : State) (now : Int) (n : Name) : List Prim :=
+  (if (cleanDecision s now n).1 then [Prim.rmPart n] else []) ++
+  (if (cleanDecision s now n).2 then [Prim.rmCmp n] else [])
 
 def cleanStraysEffects (s : State) (now : Int) (names : List Name) : List Prim :=
   names.flatMap (cleanStrayOne s now)
